@@ -29,7 +29,7 @@ ASSUMPTIONS = [
     "only the recorded command line (##commandline, @PG CL) is masked; BAM is compared record by record after decompression",
 ]
 CMDS = ["phase", "phase_ped", "phase_hp_lists", "genotype", "genotype_ped", "polyphase", "haplotag", "haplotagphase",
-        "unphase", "stats", "compare", "split", "find_snv_candidates"]
+        "unphase", "stats", "compare", "split", "find_snv_candidates", "polyphase_pre", "polyphase_pre2"]
 
 
 def design_mc(ctx):
@@ -82,7 +82,7 @@ def scenarios(ctx):
         for cmd in CMDS:
             envs = [{"hashseed": s, "threads": 1, "rep": 0} for s in seeds]
             envs += [{"hashseed": "random", "threads": 1, "rep": r} for r in range(2)]
-            if cmd == "polyphase":
+            if cmd.startswith("polyphase"):
                 envs += [{"hashseed": seeds[i % len(seeds)], "threads": t, "rep": 0} for i, t in enumerate([2, 3, 2, 3])]
             if cmd == "haplotag":
                 envs += [{"hashseed": seeds[i % len(seeds)], "threads": t, "rep": 0} for i, t in enumerate([2, 3])]
@@ -153,14 +153,17 @@ def drive(sc):
     try:
         cmd = sc["cmd"]
         outs = []
-        if cmd == "polyphase":
+        if cmd.startswith("polyphase"):
             from . import c15
-            prng = random.Random(sc["wseed"])
-            psc = c15.random_poly_scenario(prng, prng.choice([3, 4]), prng.choice([2, 4]), False)
-            psc.update(nsamples=2, nchrom=1, distrust=False, ignore_rg=False, nvar=[12, 20], nreads=[40, 70], gap=True)
+            pre = cmd != "polyphase"
+            prng = random.Random(sc["wseed"] + len(cmd))
+            psc = c15.random_poly_scenario(prng, prng.choice([3, 4]), prng.choice([2, 4]), pre)
+            # several blocks of different sizes (coverage gaps), pre-phased input for the --use-prephasing variants
+            psc.update(nsamples=1 if pre else 2, nchrom=1, distrust=False, ignore_rg=False, nvar=[18, 30] if pre else [12, 20],
+                       nreads=[60, 110] if pre else [40, 70], gap=True, prephased_input=pre, use_prephasing=pre, err=0.02 if pre else psc["err"])
             pw = c15.build_world(psc, d)
-            base = ["polyphase", "--ploidy", str(psc["ploidy"]), "-o", "{out}/out.vcf", "--block-cut-sensitivity", str(psc["sens"]),
-                    os.path.join(d, "in.vcf"), os.path.join(d, "in.bam")]
+            base = ["polyphase", "--ploidy", str(psc["ploidy"]), "-o", "{out}/out.vcf", "--block-cut-sensitivity", str(psc["sens"])] + \
+                   (["--use-prephasing"] if pre else []) + [os.path.join(d, "in.vcf"), os.path.join(d, "in.bam")]
             outs = ["out.vcf"]
         else:
             wd = _world(sc)
@@ -219,7 +222,7 @@ def drive(sc):
             od = os.path.join(d, f"run{k}")
             os.makedirs(od)
             args = [a.replace("{out}", od).replace("{threads}", str(env["threads"])) for a in base]
-            if cmd == "polyphase":
+            if cmd.startswith("polyphase"):
                 args = args[:1] + ["--threads", str(env["threads"])] + args[1:]
             e = dict(os.environ, PYTHONPATH=builddir)
             e.pop("WHATSHAP_VERIF_TRACE", None)
